@@ -12,6 +12,7 @@ import (
 
 	"verif/harness/batch"
 	"verif/harness/core"
+	"verif/harness/docs"
 	"verif/harness/gen"
 	"verif/harness/goast"
 	"verif/harness/model"
@@ -113,8 +114,84 @@ func fullMixProfile(c *core.Ctx) *sgen.Profile {
 		WString: 5, WInteger: 4, WNumber: 4, WBoolean: 2, WObject: 4, WArray: 4, WEnum: 3, WRef: 4, WAny: 1, WNull: 1, WAllOf: 1, WAnyOf: 1, WMap: 1,
 		PConstraint: 0.45, PNullable: 0.2, PRequired: 0.4, PDefault: 0.2, PFormat: 0.15, PDesc: 0.3, PAdditional: 0.15,
 		HostileText: true, InlineItemConstraints: true, MixedEnums: true,
-		Avoid: c.Avoid, Excluded: c.ExcludedMap(),
+		Avoid: c.Avoid, Excluded: c.ExcludedMap(), Sat: docs.Satisfiable,
 	}
+}
+
+// wrappedEnum reports whether the tool represents the enum as a struct
+// wrapper (mixed value types or null members).
+func wrappedEnum(n *model.Node) bool {
+	if n.Kind != model.KEnum {
+		return false
+	}
+	if n.EnumType == "null" {
+		return true
+	}
+	if n.EnumType != "" {
+		return false
+	}
+	kinds := map[string]bool{}
+	for _, v := range n.EnumVals {
+		kinds[v.K.String()] = true
+	}
+	return len(kinds) > 1 || kinds["null"]
+}
+
+// defaultAllowed applies the known-finding exclusion switches about default
+// values (DESIGN.md Appendix A7) to a property schema.
+func defaultAllowed(c *core.Ctx, n *model.Node) bool {
+	ex := c.ExcludedMap()
+	no := func(sw string) bool {
+		if c.Avoid(sw) {
+			ex[sw]++
+			return true
+		}
+		return false
+	}
+	if n.Nullable && no("defaults.on_nullable") {
+		return false
+	}
+	rn := n.Resolve()
+	if rn == nil {
+		return false
+	}
+	switch rn.Kind {
+	case model.KString:
+		if rn.Format != "" && no("defaults.on_format") {
+			return false
+		}
+	case model.KEnum:
+		if wrappedEnum(rn) && no("defaults.on_wrapped_enum") {
+			return false
+		}
+	case model.KObject, model.KAllOf, model.KAnyOf:
+		if no("defaults.on_object") {
+			return false
+		}
+	case model.KAny:
+		if no("defaults.on_untyped") {
+			return false
+		}
+	case model.KArray:
+		it := rn.Items
+		if it != nil {
+			if r := it.Resolve(); r != nil && r.Kind == model.KArray && no("defaults.nested_arrays") {
+				return false
+			}
+		}
+		for it != nil {
+			r := it.Resolve()
+			if r == nil {
+				return false
+			}
+			if r.Kind == model.KArray {
+				it = r.Items
+				continue
+			}
+			return defaultAllowed(c, r)
+		}
+	}
+	return true
 }
 
 func tmpDir(t testing.TB, prefix string) string {
